@@ -262,6 +262,32 @@ class LengthHonouringJSONHandler(falcon.media.BaseHandler):
         return json.dumps(media).encode()
 
 
+class SubclassedJSONHandler(falcon.media.JSONHandler):
+    """A user subclass of the stock handler that overrides ONE documented method, deserialize()."""
+    TAG = 'subclass-deserialize'
+
+    def deserialize(self, stream, content_type, content_length):
+        return {'via': self.TAG, 'value': super().deserialize(stream, content_type, content_length)}
+
+
+class FalsyBoolJSONHandler(SubclassedJSONHandler):
+    """... and whose truth value is False."""
+    TAG = 'falsy-bool'
+
+    def __bool__(self):
+        return False
+
+
+class EmptyContainerJSONHandler(LengthHonouringJSONHandler):
+    """A handler that is also a (currently empty) container: len() == 0, so it is falsy."""
+
+    def __len__(self):
+        return 0
+
+    def deserialize(self, stream, content_type, content_length):
+        return {'via': 'falsy-len', 'value': super().deserialize(stream, content_type, content_length)['value']}
+
+
 OLD_MEDIA_JSON = 'application/json; charset=UTF-8'      # the value of falcon.MEDIA_JSON before 3.0
 _STRICT = falcon.media.JSONHandler(loads=M.strict_decimal_loads)
 _HANDLER_SETS = {
@@ -269,10 +295,14 @@ _HANDLER_SETS = {
     'exact': {falcon.MEDIA_JSON: _STRICT},
     'charset_key': {OLD_MEDIA_JSON: _STRICT},           # an equivalent media type string, no exact key
     'custom_base': {falcon.MEDIA_JSON: LengthHonouringJSONHandler()},
+    'subclass': {falcon.MEDIA_JSON: SubclassedJSONHandler()},
+    'falsy_len': {falcon.MEDIA_JSON: EmptyContainerJSONHandler()},
+    'falsy_bool_charset': {OLD_MEDIA_JSON: FalsyBoolJSONHandler()},
 }
-JCFGS = ('stock', 'exact', 'charset_key', 'custom_base')
+JCFGS = ('stock', 'exact', 'charset_key', 'custom_base', 'subclass', 'falsy_len', 'falsy_bool_charset')
 JSON_LOADS = {'stock': None, 'exact': M.strict_decimal_loads, 'charset_key': M.strict_decimal_loads,
-              'custom_base': M.tagged_loads}
+              'custom_base': M.tagged_loads, 'subclass': M.make_tagged_loads('subclass-deserialize'),
+              'falsy_len': M.make_tagged_loads('falsy-len'), 'falsy_bool_charset': M.make_tagged_loads('falsy-bool')}
 
 
 def configure_json(options, jcfg):
@@ -1227,7 +1257,7 @@ def run(rec):
     for c in JCFGS:
         rec.floor('cls.json_handler_' + c, 500)
     rec.floor('cls.json_handler_reconfigured', 1000)
-    for c in ('exact.ok', 'exact.invalid', 'charset_key.ok', 'charset_key.invalid', 'custom_base.ok', 'custom_base.invalid'):
+    for c in [j + o for j in JCFGS[1:] for o in ('.ok', '.invalid')]:
         rec.floor('out.json_' + c, 50)
     for c in ('asgi_non_utf8', 'wsgi_no_query_key', 'empty_query', 'deep_json', 'options_toggled', 'csv_all_blank', 'fixed_strings'):
         rec.floor('cls.' + c, 2)
